@@ -160,6 +160,19 @@ def relranks_with_ep(f, L, names):
     return out
 
 
+def check_reader_ep_guard(ctx, f, g, L):
+    """the reader keeps only the *file* of the en-passant square; the rank is re-derived from the side to move, so a
+    square on another rank must be refused or the board returned is not the position the text denotes (C07, C08)"""
+    eb = f.need(g.stage_for(B + "::from_fen", "ep"))
+    eps = sym.SymExec(f, eb, inline=lambda n: False if n in g.W else None).run()
+    for p in eps:
+        for e in p.events:
+            if e.kind == "call" and e.depth == 0 and g.wrole.get(e.name) == "ep" and e.args[1][0] == "agg" and e.args[1][2] == "Some":
+                guard = [c for c in p.conds[:e.ncond] if sym.contains(L.lift(c[0]), lambda y: y[0] == "relrank" and y[1] == 5)]
+                ok = bool(guard) and ((guard[-1][0][1] == "Ne") == (guard[-1][1] == 0))
+                ctx.check(ok, "reader:ep-rank-guard", "the reader stores an en-passant file without requiring the square to be on the canonical rank", loc(eb))
+
+
 def run(ctx):
     ctx.explanation = __doc__
     f = ctx.facts("A")
@@ -691,14 +704,7 @@ def run(ctx):
             continue            # these also name the origin / victim squares
         ctx.check(v == {5}, "ep-rank:%s" % k, "%s pairs the en-passant file with relative rank(s) %s, not only the 6th relative to the side to move" % (k, sorted(v)))
     # parse: set only under the rank guard
-    eb = f.need(g.stage_for(B + "::from_fen", "ep"))
-    eps = sym.SymExec(f, eb, inline=lambda n: False if n in g.W else None).run()
-    for p in eps:
-        for e in p.events:
-            if e.kind == "call" and e.depth == 0 and g.wrole.get(e.name) == "ep" and e.args[1][0] == "agg" and e.args[1][2] == "Some":
-                guard = [c for c in p.conds[:e.ncond] if sym.contains(L.lift(c[0]), lambda y: y[0] == "relrank" and y[1] == 5)]
-                ok = bool(guard) and ((guard[-1][0][1] == "Ne") == (guard[-1][1] == 0))
-                ctx.check(ok, "reader:ep-rank-guard", "the reader stores an en-passant file without requiring the square to be on the canonical rank", loc(eb))
+    check_reader_ep_guard(ctx, f, g, L)
     ctx.assumptions += ["integer formatting/parsing of the clocks by core", "C19's enum<->char tables are inverse bijections"]
     # round-trip equality compares hash, checkers and pins too: the rules that keep them a function of the
     # position (owned by C03 and C10) are prerequisites of this property and are re-run here
